@@ -12,8 +12,10 @@ KHi == IF "C20_KHI" \in DOMAIN IOEnv THEN atoi(IOEnv.C20_KHI) ELSE 16
 EnvKPairs == {KPairSeq[i] : i \in KLo..KHi}
 
 (* ---- operation scripts ---- *)
-AllOpsButCall == AllOps \ {"call"}
-ScriptOps == AllOps \ {"item", "tslice"}     \* integer items and 1-tuple slices: see the exhaustive MonIndex runs
+\* integer items and 1-tuple slices: see the exhaustive MonIndex runs; m[sel] = b, m[a:b] = b, min(): see MonSet
+ScriptOps == {"call", "slice", "index", "add", "extend", "prepend", "setitem"}
+NoSels == {}
+NoSlices == {}
 QSlices == {<<None, None, -1>>, <<1, None, None>>}
 TSlices == {<<None, None, -1>>, <<1, None, None>>, <<None, -1, 2>>, <<-2, None, None>>}
 W0 == {<< >>}
@@ -59,4 +61,29 @@ IdxSlices == {<<None, None, -1>>, <<1, None, 2>>, <<None, -1, None>>, <<-2, None
 IdxKLo == IF "C20_KLO" \in DOMAIN IOEnv THEN atoi(IOEnv.C20_KLO) ELSE 1
 IdxKHi == IF "C20_KHI" \in DOMAIN IOEnv THEN atoi(IOEnv.C20_KHI) ELSE 4
 IndexKPairs == {<<Ks[i], Ks[i]>> : i \in IdxKLo..IdxKHi}
+
+(* ---- Null: one of the two python variables holds monitors.Null() (MonNull).  Every script operation plus
+   m[a:b] = b; the warm-up calls the Null too (records nothing) ---- *)
+NullSeq == <<(<<None, NullK>>), (<<2, NullK>>), (<<NullK, -1>>), (<<NullK, 1>>), (<<-1, NullK>>), (<<1, NullK>>),
+             (<<NullK, None>>), (<<NullK, 2>>), (<<NullK, NullK>>)>>
+NLo == IF "C20_KLO" \in DOMAIN IOEnv THEN atoi(IOEnv.C20_KLO) ELSE 1
+NHi == IF "C20_KHI" \in DOMAIN IOEnv THEN atoi(IOEnv.C20_KHI) ELSE 3
+NullKPairs == {NullSeq[i] : i \in NLo..NHi}
+NullOps == ScriptOps \cup {"setslice"}
+NullSetSlices == {<<1, None, None>>, <<None, 1, None>>}
+
+(* ---- m[sel] = b, m[a:b] = b and m.min() (MonSet): slot 1 holds 3 records, slot 2 holds 2 (or 2 and 1); every
+   list / int array of 1..2 (thorough: ..3) indices and every bool mask as array / list ---- *)
+SetOps == {"setsel", "setslice", "min", "setitem", "extend"}
+SetW == {<<1, 1, 1, 2, 2>>, <<1, 2, 1>>}
+SetSeq == <<(<<None, 1>>), (<<2, 2>>), (<<-1, -1>>), (<<2, None>>), (<<1, -1>>), (<<None, None>>)>>
+SLo == IF "C20_KLO" \in DOMAIN IOEnv THEN atoi(IOEnv.C20_KLO) ELSE 1
+SHi == IF "C20_KHI" \in DOMAIN IOEnv THEN atoi(IOEnv.C20_KHI) ELSE 3
+SetKPairs == {SetSeq[i] : i \in SLo..SHi}
+SeqsFromTo(S, L0, L) == UNION {[1..l -> S] : l \in L0..L}
+AllSetSels(N, L) == {<<f, q>> : f \in {"s_ilist", "s_iarray"}, q \in SeqsFromTo((-N)..(N - 1), 1, L)}
+                    \cup {<<f, q>> : f \in {"s_imask", "s_lmask"}, q \in SeqsFromTo({0, 1}, 2, N)}
+QSetSels == AllSetSels(3, 2)
+QSetSlices == {<<None, None, None>>, <<1, None, None>>, <<None, -1, None>>, <<1, 2, None>>, <<2, 1, None>>,
+               <<0, 0, None>>, <<-5, 5, None>>}
 =============================================================================
